@@ -33,7 +33,7 @@ func (nopUnserializer) Unserialize(io.Reader, *native.UnserializeOptions, interf
 	return sbom.NewDocument(), nil
 }
 
-const c17ops = 11
+const c17ops = 15
 
 func c17op(i int, fa, fb formats.Format) func() {
 	switch i {
@@ -77,6 +77,51 @@ func c17op(i int, fa, fb formats.Format) func() {
 			rt.Call(func() {
 				r := reader.New()
 				r.ParseStreamWithOptions(nil, &reader.Options{Format: fb})
+			})
+		}
+	case 10:
+		// format detection of an independent tag-value document (its own stream): the line sniffer
+		return func() {
+			rt.Call(func() {
+				s := rt.NewTextStream("SPDXVersion: SPDX-2.3", "DataLicense: CC0-1.0")
+				f, err := (&formats.Sniffer{}).SniffReader(s)
+				rt.Assert(err == nil && f == formats.SPDX23TV, "C17.linearizable.SniffReader.lines")
+			})
+		}
+	case 11:
+		// format detection of an independent JSON document
+		return func() {
+			rt.Call(func() {
+				s := rt.NewJSONStream(jObj(jm{"bomFormat", jStr("CycloneDX")}, jm{"specVersion", jStr("1.5")}))
+				f, err := (&formats.Sniffer{}).SniffReader(s)
+				rt.Assert(err == nil && f == formats.CDX15JSON, "C17.linearizable.SniffReader.json")
+			})
+		}
+	case 12:
+		// a writer of its own, configured in place through its exported option objects, then used
+		return func() {
+			rt.Call(func() {
+				w := writer.New()
+				if w.Options.RenderOptions != nil {
+					w.Options.RenderOptions.Indent = 3
+				}
+				if w.Options.StoreOptions != nil {
+					w.Options.StoreOptions.NoClobber = true
+				}
+				w.Options.Format = fb
+				w.WriteStream(&sbom.Document{}, nopWC{})
+			})
+		}
+	case 13:
+		// a reader of its own, configured in place, then used
+		return func() {
+			rt.Call(func() {
+				r := reader.New()
+				r.Options.Format = fb
+				if r.Options.RetrieveOptions != nil {
+					r.Options.RetrieveOptions.BackendOptions = "x"
+				}
+				r.ParseStreamWithOptions(nil, r.Options)
 			})
 		}
 	}
